@@ -50,6 +50,13 @@ class ChangingStream(io.BytesIO):
         return super().readline(*a)
 
 
+def _eight_byte_prefixes() -> bytes:
+    import struct
+
+    hidden = b"AAAAcos\nsystem\n(S'id'\ntR."
+    return b"\x80\x04\x8d" + struct.pack("<Q", 5) + b"hello" + b"0" + b"\x8e" + struct.pack("<Q", len(hidden)) + hidden + b"."
+
+
 def _inputs():
     import collections
 
@@ -64,6 +71,11 @@ def _inputs():
         ("an unsupported opcode (analysis raises)", b"Pfoo\n."),
         ("a self-referential list (analysis raises)", b"\x80\x02]q\x00h\x00a."),
         ("truncated after a dangerous prefix (parse raises)", b"cos\nsystem\n(S'id'\ntR"),
+        # rarer shapes of the same verdict classes
+        ("os.system by INST (protocol 0: no GLOBAL opcode at all)", b"(S'id'\nios\nsystem\n."),
+        ("data only, but a second PROTO opcode (a finding without any import or call)", b"\x80\x02\x80\x03K\x01."),
+        ("8-byte length prefixes: a BINUNICODE8 text, popped, then a BINBYTES8 constant whose content spells a call", _eight_byte_prefixes()),
+        ("a Python-2 style 8-bit string (SHORT_BINSTRING)", b"\x80\x02U\x03abcq\x00."),
     ]
 
 
